@@ -18,8 +18,8 @@ PROP_MODULES = {
     'C15': ['contracts.builders', 'contracts.c15_async'],
     'C14': ['contracts.builders', 'contracts.shared_grid', 'contracts.c03_grid', 'contracts.c04_meta', 'contracts.c16_limits', 'contracts.c20_conditional', 'contracts.c14_merge', 'contracts.c10_auth'],
     'C16': ['contracts.builders', 'contracts.shared_grid', 'contracts.c03_grid', 'contracts.c04_meta', 'contracts.c16_limits'],
-    'C13': ['contracts.builders', 'contracts.shared_grid', 'contracts.c03_grid', 'contracts.c04_meta', 'contracts.c08_creator', 'contracts.c08_manager', 'contracts.c13_expiry'],
-    'C08': ['contracts.builders', 'contracts.shared_grid', 'contracts.c03_grid', 'contracts.c04_meta', 'contracts.c05_compact', 'contracts.c16_limits', 'contracts.c08_creator', 'contracts.c08_manager', 'contracts.c05_paths', 'contracts.c09_paths'],
+    'C13': ['contracts.builders', 'contracts.shared_grid', 'contracts.c03_grid', 'contracts.c04_meta', 'contracts.c08_creator', 'contracts.c08_manager', 'contracts.c13_expiry', 'contracts.c05_sqlite'],
+    'C08': ['contracts.builders', 'contracts.shared_grid', 'contracts.c03_grid', 'contracts.c04_meta', 'contracts.c05_compact', 'contracts.c16_limits', 'contracts.c08_creator', 'contracts.c08_manager', 'contracts.c05_paths', 'contracts.c09_paths', 'contracts.c13_expiry'],
 }
 
 # semantics assumed by the encoding (DESIGN.md section 2.4), reported in every evidence file
